@@ -246,13 +246,23 @@ ChildExit ==
   /\ s' = [s EXCEPT !.crashed = (Ev.signal # 0 \/ Ev.code # 0)]
 
 Note == Step("Note") /\ s' = s
+\* long runs in one process: per-cycle mapping accounting, and the process's rwx-anonymous mappings before / after
+Cycle ==
+  /\ Step("Cycle") /\ s.phase = "idle"
+  /\ Req("C12", Ev.live_after = 0 /\ Ev.mmaps_ok = Ev.munmaps_ok /\ Ev.foreign = 0)
+  /\ Req("C04", Ev.lock # 1)
+  /\ s' = s
+Maps ==
+  /\ Step("Maps") /\ s.phase = "idle"
+  /\ Req("C12", Ev.rwx_after = Ev.rwx_before /\ Ev.live = 0)
+  /\ s' = s
 \* a function that was never named (another instantiation of the same generic function) still runs its own code
 Neighbour == Step("Neighbour") /\ Req("C03", Ev.ok) /\ s' = s
 
 TraceNext ==
   \/ Ambient \/ MunmapFailed \/ Target \/ Acquire \/ InstallBegin \/ Mmap \/ Munmap \/ WriteTramp \/ WriteEntry \/ WriteOther
   \/ Flush \/ Mprotect \/ InstallEndOk \/ InstallEndAbandoned \/ InstallEndPanic \/ Call \/ UserPanic \/ DropBegin \/ DropEnd
-  \/ Diff \/ Fresh \/ ChildExit \/ Note \/ CallUnwind \/ Neighbour
+  \/ Diff \/ Fresh \/ ChildExit \/ Note \/ Cycle \/ Maps \/ CallUnwind \/ Neighbour
 
 TraceSpec == TraceInit /\ [][TraceNext]_tvars
 
